@@ -309,6 +309,105 @@ class TwoKills:
             drop(a)
 
 
+class RehashKill:
+    """a sync interrupted while a REHASH is in progress (array created with the other hash kind, `rehash` issued, only a part of the
+    stripes rehashed so far): `sync -h` with a deletion and an addition re-using the freed position, killed at every call; before
+    the resumed sync nothing / a lower file of the same disk is deleted (the scan may then move the half-synced file down).  The
+    resumed sync must complete, a second one too, parity valid, `check` clean, every file recoverable."""
+
+    def __init__(self, chk, binary, shim, np_, cache, opts=('-h',)):
+        self.chk, self.binary, self.shim, self.np, self.cache = chk, binary, shim, np_, cache
+        self.opts = ['--test-io-cache', str(cache)] + list(opts)
+        self.stats = {'histories': 0, 'passed': 0, 'rehash_pending_at_kill': 0}
+        self.desc = {'family': 'sync interrupted while a rehash is in progress', 'np': np_, 'io_cache': cache, 'options': list(opts)}
+        a = self.build()
+        log = os.path.join(a.root, 'ref.log')
+        r = a.run('sync', *self.opts, shim_env={'VSHIM_LOG': log})
+        if r.rc != 0:
+            raise RuntimeError('rehash-kill: reference sync failed: %r' % r)
+        self.calls = shim_log(log)
+        drop(a)
+
+    def build(self):
+        a = Array(self.binary, nd=3, np_=self.np, ncontent=1, shim=self.shim)
+        a.write('d1', 'a1', det_bytes('rk/a1', BS), mtime_ns=T0 + 1)
+        a.write('d1', 'a2', det_bytes('rk/a2', BS), mtime_ns=T0 + 2)
+        a.write('d1', 'a3', det_bytes('rk/a3', BS - 3), mtime_ns=T0 + 3)
+        a.write('d2', 'x', det_bytes('rk/x', 3 * BS), mtime_ns=T0 + 4)
+        r = a.run('sync', '--test-force-murmur3')
+        r2 = a.run('rehash')
+        a.write('d3', 'y', det_bytes('rk/y', BS), mtime_ns=T0 + 50 * 10**9)
+        r3 = a.run('sync')                                # rehashes stripe 0 only
+        if r.rc or r2.rc or r3.rc:
+            raise RuntimeError('rehash-kill: preparation failed: %r %r %r' % (r, r2, r3))
+        a.remove('d1', 'a2')
+        a.write('d1', 'b', det_bytes('rk/b', BS), mtime_ns=T0 + 90 * 10**9)       # re-uses the position of a2 (not yet rehashed)
+        return a
+
+    def points(self, quick):
+        pts = [('kas', 0, '')]
+        for (n, call, path, rest) in self.calls:
+            pts.append(('n', n, 'before'))
+            if not quick and call in WRITE_CALLS:
+                pts.append(('n', n, 'short'))
+        pts.append(('n', len(self.calls), 'after'))
+        return [(p, v) for p in pts for v in ('none', 'rm_lower', 'rm_lower_add')]
+
+    def case(self, pt):
+        (kind, k, mode), variant = pt
+        chk = self.chk
+        if len(chk.violations) > 8:
+            return
+        a = self.build()
+        rep = dict(self.desc, kill=[kind, k, mode], before_resume=variant)
+        try:
+            if kind == 'kas':
+                r = a.run('sync', *self.opts, '--test-kill-after-sync')
+            else:
+                r = a.run('sync', *self.opts, shim_env={'VSHIM_KILL': '%d:%s' % (k, mode) if mode != 'before' else str(k)})
+                if r.rc not in (-9, 137):
+                    return
+            self.stats['histories'] += 1
+            try:
+                st = a.content()
+                if any(i and i['rehash'] for i in st['info']):
+                    self.stats['rehash_pending_at_kill'] += 1
+            except Exception:
+                pass
+            if variant != 'none':
+                a.remove('d1', 'a1')                  # a lower position of the same disk becomes free
+            if variant == 'rm_lower_add':
+                a.write('d2', 'z', det_bytes('rk/z', BS + 9), mtime_ns=T0 + 120 * 10**9)
+            want = a.snapshot_data()
+            rs = a.run('sync')
+            if rs.rc != 0:
+                rs2 = a.run('sync')
+                chk.violation('rehash_resume', 'rehash in progress: the sync after a `sync %s` killed at %s (then: %s) does not complete (rc %d, once more rc %d): %s' % (
+                    ' '.join(self.opts[2:]), (kind, k, mode), variant, rs.rc, rs2.rc, (rs.err or rs.out)[-300:]), rep)
+                return
+            rs2 = a.run('sync')
+            st = a.content()
+            perr, _ = a.check_parity(st)
+            left = all_synced(a, st)
+            rc_ = a.run('check')
+            d = data_equal(want, a.snapshot_data())
+            if rs2.rc != 0 or perr or left or rc_.rc != 0 or d:
+                chk.violation('rehash_resume', 'rehash in progress: after the resumed sync (kill at %s, then: %s): second sync rc %d, unsynced stripes %s, parity errors %s, check rc %d, data differences %s' % (
+                    (kind, k, mode), variant, rs2.rc, left, perr[:2], rc_.rc, d[:2]), rep)
+                return
+            # C01 on the file the interrupted sync was adding
+            exp = open(a.path('d1', 'b'), 'rb').read()
+            os.unlink(a.path('d1', 'b'))
+            rf = a.run('fix')
+            p = a.path('d1', 'b')
+            if rf.rc != 0 or not os.path.isfile(p) or open(p, 'rb').read() != exp:
+                chk.violation('rehash_resume', 'rehash in progress: after the resumed sync (kill at %s, then: %s) d1:b is not recoverable (fix rc %d)' % ((kind, k, mode), variant, rf.rc), rep)
+                return
+            self.stats['passed'] += 1
+        finally:
+            drop(a)
+
+
 class SyncKill:
     """one configuration: scenario, np, io_cache, number of content copies, autosave position"""
 
@@ -1294,6 +1393,18 @@ def main(tier, replay=None):
         for k, v in TK.stats.items():
             tstats[k] = tstats.get(k, 0) + v
     lap('two_kills')
+    # ---- a sync interrupted while a rehash is in progress
+    hstats = {}
+    for (np_, cache_, opts_) in ([(1, 3, ('-h',))] if quick else [(1, 3, ('-h',)), (2, 1, ('-h',)), (1, 8, ())]):
+        try:
+            RK = RehashKill(chk, binary, shim, np_, cache_, opts_)
+        except Exception as e:
+            chk.violation('setup', 'rehash-kill history cannot be prepared: %s' % e, {'np': np_}, no_input=True)
+            continue
+        pmap(RK.case, RK.points(quick))
+        for k, v in RK.stats.items():
+            hstats[k] = hstats.get(k, 0) + v
+    lap('rehash_kill')
     # ---- delete / interrupted sync / identical re-add
     rstats = {}
     for (nd_, np_, cache_) in ([(2, 1, 3)] if quick else [(2, 1, 3), (3, 2, 1), (2, 2, 8)]):
@@ -1367,10 +1478,10 @@ def main(tier, replay=None):
     lap('fix_leftovers')
     probe = unrecoverable_rerun_probe(binary, shim)
     lap('probe')
-    n_eval = tot.get('kills', 0) + sstats['signals'] + fstats.get('kills', 0) + rstats.get('histories', 0) + rstats.get('resave_histories', 0) + istats.get('kills', 0) + tstats.get('histories', 0) + lstats.get('partial_runs', 0) + lstats.get('signals', 0)
+    n_eval = tot.get('kills', 0) + sstats['signals'] + fstats.get('kills', 0) + rstats.get('histories', 0) + rstats.get('resave_histories', 0) + istats.get('kills', 0) + tstats.get('histories', 0) + hstats.get('histories', 0) + lstats.get('partial_runs', 0) + lstats.get('signals', 0)
     chk.cov.update({'evaluations': n_eval, 'distinct_nontrivial': n_eval,
                     'rule': 'EVERY numbered state-changing call k of a reference sync (and of a reference fix) x {before, after, short for write/pwrite}: one fresh deterministic array per point, killed there; SIGINT/SIGTERM at every parity write of slowed syncs; non-trivial = runs really interrupted',
-                    'sync_kill_configurations': conf_sum, 'sync_kill': tot, 'graceful_stop': sstats, 'fix_kill_configurations': fconf, 'fix_kill': fstats, 'delete_kill_identical_readd': rstats, 'content_copies_inside_data_disks': istats, 'two_successive_interrupted_syncs_adds_only': tstats, 'second_fix_over_unrecoverable_leftovers': lstats,
+                    'sync_kill_configurations': conf_sum, 'sync_kill': tot, 'graceful_stop': sstats, 'fix_kill_configurations': fconf, 'fix_kill': fstats, 'delete_kill_identical_readd': rstats, 'content_copies_inside_data_disks': istats, 'two_successive_interrupted_syncs_adds_only': tstats, 'sync_killed_while_rehash_in_progress': hstats, 'second_fix_over_unrecoverable_leftovers': lstats,
                     'torn_write_np1_unrecoverable': tot.get('torn_write_np1_unrecoverable', 0), 'reduced_hash_np1_unrecoverable': tot.get('reduced_hash_np1_unrecoverable', 0), 'autosave_race': aw,
                     'fix_rerun_after_unrecoverable_result (measured, not judged)': probe,
                     'traces_validated_against_impl': traces_ok, 'phase_seconds': phase})
